@@ -376,7 +376,7 @@ def check(seq, shape, perm, inner_reverse, resid_scheme, extra, setname, stash, 
         acc.violation(sig, desc, case)
 
 
-def check_modification(seq, shape, perm, inner_reverse, modified, acc, sample=False, context=False):
+def check_modification(seq, shape, perm, inner_reverse, modified, acc, sample=False, context=False, two_kinds=False):
     """A modification mapping: residues of type A listed in `modified` carry an extra atom x1 bonded to a3 and the label of the
     from-modification MODA; the mapping MODA -> MODB overlays bead BB (attribute replaced) and creates one new bead XB."""
     import vermouth
@@ -384,7 +384,7 @@ def check_modification(seq, shape, perm, inner_reverse, modified, acc, sample=Fa
     from vermouth.molecule import Modification
     from vermouth.processors.do_mapping import do_mapping
     case = {'layer': 'modification', 'seq': ''.join(seq), 'shape': shape, 'perm': list(perm), 'inner_reverse': inner_reverse, 'modified': list(modified),
-            'context': context}
+            'context': context, 'two_kinds': two_kinds}
     ff_from, ff_to, mappings, specs = build_mappings('many-to-one')
     mod_from = Modification(force_field=ff_from)
     mod_from.name = 'MODA'
@@ -413,6 +413,25 @@ def check_modification(seq, shape, perm, inner_reverse, modified, acc, sample=Fa
     else:
         mappings['fa']['fb'][('MODA',)] = Mapping(mod_from, mod_to, {'a3': {'BB': 1}, 'x1': {'XB': 1}}, {}, ff_from=ff_from, ff_to=ff_to,
                                                    names=('MODA',), type='modification')
+    kind_of = {r: 'A' for r in modified}
+    mod_from2 = None
+    if two_kinds:
+        # a SECOND modification with the same atom names and the same shape (a3 - x1), known under another name and mapped to
+        # another particle: which of the two a residue carries is decided by its label, not by the shape
+        mod_from2 = Modification(force_field=ff_from)
+        mod_from2.name = 'MODC'
+        mod_from2.add_node('a3', atomname='a3', PTM_atom=False)
+        mod_from2.add_node('x1', atomname='x1', PTM_atom=True, modifications=[mod_from2])
+        mod_from2.add_edge('a3', 'x1')
+        mod_to2 = Modification(force_field=ff_to)
+        mod_to2.name = 'MODD'
+        mod_to2.add_node('BB', atomname='BB', PTM_atom=False, replace={'charge': -1})
+        mod_to2.add_node('XC', atomname='XC', PTM_atom=True, atype='TY', resname='MOD')
+        mod_to2.add_edge('BB', 'XC')
+        mod_to2.add_interaction('bonds', ['BB', 'XC'], ['1', '0.2', '4000'])
+        mappings['fa']['fb'][('MODC',)] = Mapping(mod_from2, mod_to2, {'a3': {'BB': 1}, 'x1': {'XC': 1}}, {}, ff_from=ff_from, ff_to=ff_to,
+                                                   names=('MODC',), type='modification')
+        kind_of = {r: ('A' if n % 2 == 0 else 'C') for n, r in enumerate(modified)}
     mol, keys, resids, inter = build_molecule(ff_from, seq, shape, perm, False if inner_reverse == 'natural' else inner_reverse,
                                               'consecutive', None)
     extra_tags = {}
@@ -424,9 +443,10 @@ def check_modification(seq, shape, perm, inner_reverse, modified, acc, sample=Fa
         mol.add_node(key, atomname='x1', resname='A', resid=resids[r], chain='A', element='C', tag='%d:x1' % r, PTM_atom=True)
         mol.add_edge(key, keys[(r, 'a3')])
         extra_tags[r] = key
+        label = mod_from if kind_of[r] == 'A' else mod_from2
         for name in RES_ATOMS['A']:
-            mol.nodes[keys[(r, name)]]['modifications'] = [mod_from]
-        mol.nodes[key]['modifications'] = [mod_from]
+            mol.nodes[keys[(r, name)]]['modifications'] = [label]
+        mol.nodes[key]['modifications'] = [label]
     try:
         with common.LogCapture() as log:
             out = do_mapping(mol, mappings, ff_to, attribute_keep=('chain',), attribute_stash=('resid',))
@@ -437,7 +457,7 @@ def check_modification(seq, shape, perm, inner_reverse, modified, acc, sample=Fa
     problems = []
     beads = [(k, d) for k, d in out.nodes(data=True)]
     plain = [(k, d) for k, d in beads if d.get('atomname') == 'BB']
-    created = [(k, d) for k, d in beads if d.get('atomname') == 'XB']
+    created = [(k, d) for k, d in beads if d.get('atomname') in ('XB', 'XC')]
     if len(plain) != len(seq) or len(beads) != len(seq) + len(modified):
         problems.append(('c01:mod-block-copies', '%d BB and %d XB particles for %d residues of which %d are modified' % (
             len(plain), len(created), len(seq), len(modified))))
@@ -473,6 +493,10 @@ def check_modification(seq, shape, perm, inner_reverse, modified, acc, sample=Fa
                     break
                 r = int(list(cons)[0].split(':')[0])
                 seen.add(r)
+                if d.get('atomname') != ('XB' if kind_of.get(r, 'A') == 'A' else 'XC'):
+                    problems.append(('c01:mod-wrong-mapping-placed', 'residue %d carries modification %s but got the particle %s' % (
+                        r, 'MODA' if kind_of.get(r, 'A') == 'A' else 'MODC', d.get('atomname'))))
+                    break
                 nbrs = set(out[k])
                 if nbrs != {bb_of_res[r][0]}:
                     problems.append(('c01:mod-edges', 'created particle of residue %d is bonded to %r, expected only its BB %r' % (r, sorted(nbrs), bb_of_res[r][0])))
@@ -486,6 +510,45 @@ def check_modification(seq, shape, perm, inner_reverse, modified, acc, sample=Fa
     acc.case(nontrivial=bool(modified), outcome=('mod', len(beads), len(created)), sample=case if sample else None)
     for sig, desc in problems[:1]:
         acc.violation(sig, desc, case)
+
+
+def ref_cover(to_cover, options, start=0):
+    """The documented contract, written independently: the first exact cover in lexicographic order of (non-decreasing) option
+    indices; every item is covered once; an option qualifies when all its items are still to be covered."""
+    if not to_cover:
+        return []
+    for idx in range(start, len(options)):
+        option = options[idx]
+        if all(item in to_cover for item in option):
+            rest = [x for x in to_cover if x not in option]
+            found = ref_cover(rest, options, idx)
+            if found is not None:
+                return [option] + found
+    return None
+
+
+def check_cover(task, acc):
+    """cover() decides which modification mappings describe a group of modification names: every set of names over four
+    letters against every list of up to three candidate name tuples."""
+    from vermouth.processors.do_mapping import cover
+    letters = 'abcd'
+    subsets = [tuple(c) for n in range(1, 5) for c in itertools.combinations(letters, n)]
+    first = task
+    for rest_len in range(0, 3):
+        for rest in itertools.product(subsets, repeat=rest_len):
+            options = [first] + list(rest)
+            for n in range(0, 5):
+                for names in itertools.combinations(letters, n):
+                    want = ref_cover(list(names), options)
+                    try:
+                        got = cover(list(names), list(options))
+                    except Exception as err:   # pylint: disable=broad-except
+                        got = 'exception %r' % (err,)
+                    acc.case(nontrivial=want is not None and len(want) > 1, outcome=('cover', want is None, len(want or ())))
+                    if got != want:
+                        acc.violation('c01:mod-cover', 'cover(%r, %r) = %r; the first exact cover is %r' % (list(names), options, got, want),
+                                      {'layer': 'cover', 'names': list(names), 'options': [list(o) for o in options]})
+                        return
 
 
 def sequence_case(item, acc):
@@ -512,9 +575,13 @@ def work(task):
         for item in task[1]:
             sequence_case(item, acc)
         return acc
+    if isinstance(task, tuple) and task and task[0] == 'cover':
+        check_cover(task[1], acc)
+        return acc
     for n, item in enumerate(task):
         if item[0] == 'modification':
-            check_modification(*item[1:6], acc, sample=(acc.states % 1009 == 0), context=(len(item) > 6 and item[6]))
+            check_modification(*item[1:6], acc, sample=(acc.states % 1009 == 0), context=(len(item) > 6 and item[6] is True),
+                               two_kinds=(len(item) > 6 and item[6] == 'two-kinds'))
         else:
             check(*item, acc, sample=(acc.states % 5003 == 0))
     return acc
@@ -566,6 +633,8 @@ def run(ctx):
                                 items.append(('modification', seq, shape, perm, inner, modified))
                                 if modified and shape in ('linear', 'ring') and all(r + 1 < n and seq[r + 1] == 'B' for r in modified):
                                     items.append(('modification', seq, shape, perm, inner, modified, True))
+                                if len(modified) >= 2:
+                                    items.append(('modification', seq, shape, perm, inner, modified, 'two-kinds'))
     acc = Acc()
     for part in common.pmap(work, list(common.chunked(items, max(1, len(items) // 96)))):
         acc += part
@@ -581,6 +650,11 @@ def run(ctx):
     for part in common.pmap(work, [('sequence', chunk) for chunk in common.chunked(seqs, max(1, len(seqs) // 32))]):
         acc += part
     ctx.layer('molecule-sequences', acc)
+    subsets = [tuple(c) for n in range(1, 5) for c in itertools.combinations('abcd', n)]
+    acc = Acc()
+    for part in common.pmap(work, [('cover', first) for first in subsets]):
+        acc += part
+    ctx.layer('modification-name-covers', acc)
     from props import cli_topology
     cli_topology.run_layer(ctx)
 
@@ -591,12 +665,21 @@ def replay(case):
         from props import cli_topology
         return cli_topology.replay(case)
     acc = Acc()
+    if case.get('layer') == 'cover':
+        from vermouth.processors.do_mapping import cover
+        options = [tuple(o) for o in case['options']]
+        want = ref_cover(list(case['names']), options)
+        try:
+            got = cover(list(case['names']), list(options))
+        except Exception as err:   # pylint: disable=broad-except
+            got = 'exception %r' % (err,)
+        return [('c01:mod-cover', 'cover gives %r, the first exact cover is %r' % (got, want))] if got != want else []
     if case.get('layer') == 'sequence':
         sequence_case((case['mapset'], [(tuple(m[0]), m[1], tuple(m[2]), m[3]) for m in case['molecules']]), acc)
         return [(s, d) for s, d, _ in acc.violations]
     if case.get('layer') == 'modification':
         check_modification(tuple(case['seq']), case['shape'], tuple(case['perm']), case['inner_reverse'], tuple(case['modified']), acc,
-                           context=case.get('context', False))
+                           context=case.get('context', False), two_kinds=case.get('two_kinds', False))
         return [(s, d) for s, d, _ in acc.violations]
     check(tuple(case['seq']), case['shape'], tuple(case['perm']), case['inner_reverse'], case['resids'], case['extra'],
           case['mapset'], case['stash'], acc)
